@@ -5,6 +5,8 @@
         = <exit> <out> <pids> <nrec> (<fd0> <fd1>)*
    DISAGREE: model ≠ implementation.  ORACLE: the property predicate (Nq/Spec/C07.lean) fails on what the
    implementation did.
+   Protocol letter T: a raw SMTP connection (payload = the client's bytes); letters S and T are both compared with the COMPOSED model
+   Nq.SmtpC07.run (C08's command loop + C07's smtp_data / qmail.c / qmail_close verdict), T is judged by the session oracle `sessOracle`.
    Real-queue leg (protocol letter in lower case): the queue program was the real qmail-queue.c; the line goes on with
         + <nruns> (<exit|-1> <committed> <mess file> <todo file>)* <stray todo entries>
    and is judged twice: as above on the two pipes (with the exit statuses qmail-queue produced), and once more with the
@@ -13,6 +15,10 @@
 import Drv.Util
 import Nq.Netstring
 import Nq.Spec.C07
+import Nq.SmtpC07
+import Nq.Spec.SmtpPolicy
+import Nq.Spec.SmtpPolicyDoc
+import Nq.Spec.CmdLine
 
 open Nq Nq.QmailC Nq.Received Nq.Netstring Drv
 open Nq.Spec.C07 (Req Cls qqClass Queued NotQueued receivedSpec)
@@ -286,6 +292,46 @@ def isAckLine (now : Nat) (l : Bytes) : Bool :=
   let pre := str "250 ok " ++ Nq.Spec.C07.dec now ++ str " qp "
   l.take pre.length == pre && (l.drop pre.length).length > 0 && (l.drop pre.length).all isDigit
 
+
+/-! ### the composed SMTP connection (Nq.SmtpC07): DISAGREE channel for the letters S and T -/
+
+def smtpPol (c : Case) : Nq.SmtpSession.Cfg :=
+  { rh := some (Nq.SmtpSession.readfile (str "ok.example\n.sub.example\nLocalHost\n")), more := none, bmf := none,
+    liphost := some (str "me.example"), ipme := [], relay := c.relay, greeting := str "me.example", now := c.now, qp := 0 }
+
+def smtpCfg (c : Case) : Nq.SmtpC07.Cfg := { pol := smtpPol c, databytes := c.databytes, peer := c.peer }
+
+/-- model = implementation for the whole connection: every reply byte, the exit status, the number of queue runs and every byte
+    each of them received on descriptors 0 and 1 -/
+def sessionDis (c : Case) (r0 : Rep) (raw : Bytes) : Rep := Id.run do
+  let mut r := r0
+  let cfg := smtpCfg c
+  let steps := Nq.SmtpC07.run cfg c.wleft c.ends c.pids raw
+  let ts := Nq.SmtpC07.txns steps
+  let nack := (ts.filter (·.acked cfg)).length
+  let ncut := (ts.filter (fun t => (t.d cfg).stop.isSome)).length
+  let mut st := r.st
+  st := st.bump s!"smtp-queue-runs-{min ts.length 4}"
+  st := st.bump s!"smtp-acked-{min nack 3}"
+  if ncut > 0 then st := st.bump "smtp-exit-inside-data"
+  if ts.length ≥ 2 then st := st.bump "smtp-multi-transaction"
+  if ts.length ≥ 2 && nack ≥ 1 && nack < ts.length - ncut then st := st.bump "smtp-mixed-outcomes"
+  if steps.any (fun x => match x.ev.1 with | .rset => true | _ => false) then st := st.bump "smtp-rset"
+  if (steps.filter (fun x => match x.ev.1 with | .mail _ => x.ev.2.replies == [.mailok] | _ => false)).length > ts.length then st := st.bump "smtp-mail-repeated-or-abandoned"
+  if steps.any (fun x => match x.ev.1 with | .rcpt _ => x.ev.2.replies != [.rcptok] | _ => false) then st := st.bump "smtp-rcpt-refused"
+  if steps.any (fun x => match x.ev.1 with | .data _ => x.txn.isNone | _ => false) then st := st.bump "smtp-data-refused"
+  r := { r with st := st }
+  let mout := Nq.SmtpC07.out cfg steps
+  if mout != c.out then r := r.dis c s!"output model={hex mout} impl={hex c.out}"
+  let mexit := Nq.SmtpC07.exitCode steps
+  if Int.ofNat mexit != c.exit then r := r.dis c s!"exit model={mexit} impl={c.exit}"
+  if ts.length != c.recs.length then r := r.dis c s!"queue-runs model={ts.length} impl={c.recs.length}"
+  else
+    for (t, (f0, f1)) in ts.zip c.recs do
+      if (t.q cfg).msgPipe != f0 then r := r.dis c s!"message-pipe model={hex (t.q cfg).msgPipe} impl={hex f0}"
+      if (t.q cfg).envPipe != f1 then r := r.dis c s!"envelope-pipe model={hex (t.q cfg).envPipe} impl={hex f1}"
+  return r
+
 def smtpCheck (c : Case) (r0 : Rep) : Rep := Id.run do
   let mut r := r0
   let g := fun k => c.pay.getD k "-"
@@ -300,7 +346,12 @@ def smtpCheck (c : Case) (r0 : Rep) : Rep := Id.run do
   let cmdlen := (g 5).toNat?.getD 0
   let inCommands := cut ≥ 0 && cut < Int.ofNat cmdlen
   let stream := if cut ≥ 0 then stream0.take (cut.toNat - cmdlen) else stream0
-  let cfg : Smtp.Cfg := { databytes := c.databytes, relay := c.relay, rcpthosts := some rcpthostsFile, peer := c.peer, now := c.now }
+  -- (1) the composed model on the very bytes the harness sent
+  let raw0 : Bytes :=
+    (match heloRaw with | some h => (if ehlo then str "EHLO " else str "HELO ") ++ h ++ crlfB | none => []) ++
+    str "MAIL FROM:<" ++ sender ++ str ">\r\n" ++ (rcpts.map (fun a => str "RCPT TO:<" ++ a ++ str ">\r\n")).flatten ++ str "DATA\r\n" ++ stream0
+  let raw := if cut ≥ 0 then raw0.take cut.toNat else raw0
+  if !c.queueView then r := sessionDis c r raw
   let maxA := Nq.Gen.C07.smtpAddrMax - 1
   let mailOk := sender.length ≤ maxA
   let relayB := c.relay.getD []
@@ -320,44 +371,10 @@ def smtpCheck (c : Case) (r0 : Rep) : Rep := Id.run do
     for (_, f1) in c.recs do
       if envComplete f1 then r := r.ora c "queued-cut" "complete envelope although the client disconnected before DATA"
     return r
-  -- (1) model
-  let pre := str "220 me.example ESMTP\r\n" ++
-    (if heloO.isSome then (if ehlo then str "250-me.example\r\n250-PIPELINING\r\n250 8BITMIME\r\n" else str "250 me.example\r\n") else []) ++
-    (if mailOk then str "250 ok\r\n" else str "555 syntax error (#5.5.4)\r\n") ++
-    (rcptRes.map (fun x => x.1 ++ crlfB)).flatten
   let dataOk := mailOk && !accepted.isEmpty
   if !dataOk then
-    let pre2 := pre ++ (if !mailOk then str "503 MAIL first (#5.5.1)\r\n" else str "503 RCPT first (#5.5.1)\r\n")
-    if !c.queueView then
-      if c.out.take pre2.length != pre2 then r := r.dis c s!"output-prefix model={hex pre2} impl={hex c.out}"
-      if !c.recs.isEmpty then r := r.dis c "queue-run although DATA was refused"
     if !ackLines.isEmpty then r := r.ora c "ack-refused-data" "acknowledgement although DATA was refused"
     return r
-  let rcptto := (accepted.map (fun a => [84] ++ a ++ [0])).flatten
-  let d := Smtp.data cfg heloO sender rcptto stream
-  let q := (QQ.opened c.wleft).run d.ops
-  let pre3 := pre ++ str "354 go ahead\r\n"
-  if !c.queueView then
-    match c.recs with
-    | [(f0, f1)] =>
-      if q.msgPipe != f0 then r := r.dis c s!"message-pipe model={hex q.msgPipe} impl={hex f0}"
-      if q.envPipe != f1 then r := r.dis c s!"envelope-pipe model={hex q.envPipe} impl={hex f1}"
-    | _ => r := r.dis c s!"queue-runs model=1 impl={c.recs.length}"
-    match d.stop with
-    | some _ =>
-      let exp := pre3 ++ (if d.stray then str "451 See https://cr.yp.to/docs/smtplf.html.\r\n" else [])
-      if c.out != exp then r := r.dis c s!"output model={hex exp} impl={hex c.out}"
-      if c.exit != 1 then r := r.dis c s!"exit model=1 impl={c.exit}"
-    | none =>
-      let rep := Smtp.reply d (q.verdict e) c.now (c.pids.headD 0)
-      let exp := pre3 ++ rep
-      if d.rest == str "QUIT\r\n" then
-        if c.out != exp ++ str "221 me.example\r\n" then r := r.dis c s!"output model={hex (exp ++ str "221 me.example\r\n")} impl={hex c.out}"
-        if c.exit != 0 then r := r.dis c s!"exit model=0 impl={c.exit}"
-      else if d.rest.isEmpty then
-        if c.out != exp then r := r.dis c s!"output model={hex exp} impl={hex c.out}"
-        if c.exit != 1 then r := r.dis c s!"exit model=1 impl={c.exit}"
-      else if c.out.take exp.length != exp then r := r.dis c s!"output-prefix model={hex exp} impl={hex c.out}"
   -- (2) oracle: reference decoder, independent hop count, acknowledged addresses read off the replies
   let lines := splitCRLF [] c.out
   let base := 1 + (if heloO.isSome then (if ehlo then 3 else 1) else 0)
@@ -407,6 +424,147 @@ def smtpCheck (c : Case) (r0 : Rep) : Rep := Id.run do
     for (_, f1) in c.recs do
       if envComplete f1 then r := r.ora c "queued-unterminated" "complete envelope although DATA was never terminated properly"
     if spec == .stray && finalLine.take 4 != str "451 " then r := r.ora c "class" s!"bare LF must be refused with 451, got {hex finalLine}"
+  return r
+
+
+/-! ### raw SMTP connections (letter T): the session oracle
+
+   The statement of `C07_smtp_session`, evaluated on what the IMPLEMENTATION did.  The client's bytes are cut into lines, verbs and
+   arguments by the independent specification `Nq.CmdLineSpec` and the DATA streams by the reference decoder `rfcDecode`; which MAIL /
+   RCPT / DATA were accepted is READ OFF THE IMPLEMENTATION'S REPLIES (giving a trace in C08's vocabulary); then
+     * RCPT answered 250  ⇔  `SmtpPolicyDoc.gateDocB` (open transaction, sender not barred, RELAYCLIENT or rcpthosts);
+     * DATA answered 354 only with an open transaction that has a recipient (`SmtpPolicy.openTxnB`);
+     * the reply to the end of the k-th accepted DATA is `250 ok <time> qp <pid>`  ⇒  the k-th queue run exited 0, did not crash, got
+       Received ++ decoded body on descriptor 0 and on descriptor 1 the envelope whose sender is the parsed address of the LAST MAIL
+       answered 250 and whose recipients are the stored forms of exactly the RCPTs answered 250 since, in order; size and hop limits hold;
+     * no acknowledgement ⇒ that run is not (complete envelope ∧ exit 0), and the refusal has the documented class;
+     * an acknowledgement-shaped line anywhere else, a complete envelope in a run that no terminated DATA accounts for, an
+       acknowledgement or complete envelope for a DATA the client never terminated: failures. -/
+
+def takeReply (pol : Nq.SmtpSession.Cfg) (cands : List Nq.SmtpSession.Reply) (o : Bytes) : Option (Nq.SmtpSession.Reply × Bytes) :=
+  cands.findSome? (fun x => let t := Nq.SmtpSession.render pol x; if !t.isEmpty && o.take t.length == t then some (x, o.drop t.length) else none)
+
+structure Walk where
+  pre : List Nq.SmtpPolicy.Ev := []
+  helo : Option Bytes := none
+  k : Nat := 0          -- accepted DATA commands (= queue runs) so far
+  acks : Nat := 0
+  r : Rep
+
+open Nq.SmtpSession in
+def sessWalk (c : Case) (pol : Nq.SmtpSession.Cfg) : Nat → Bytes → Bytes → Walk → Walk
+  | 0, _, _, w => w
+  | fuel + 1, inp, o, w =>
+    match Nq.CmdLineSpec.specFirstLine inp with
+    | none => w
+    | some (l, rest) =>
+      if o.isEmpty then w else
+      let v := (Nq.CmdLineSpec.specParse l).1
+      let arg := (Nq.CmdLineSpec.specParse l).2
+      let plain := fun (cmd : Cmd) (cands : List Reply) (w : Walk) =>
+        match takeReply pol cands o with
+        | none => { w with r := w.r.ora c "garbled-reply" s!"the reply to command line {hex l} is none of the replies of that command: {hex (o.take 80)}" }
+        | some (x, o') => sessWalk c pol fuel rest o' { w with pre := w.pre ++ [(cmd, { replies := [x] })] }
+      match v with
+      | .helo => plain .helo [.helo] { w with helo := some arg }
+      | .ehlo => plain .ehlo [.ehlo] { w with helo := some arg }
+      | .rset => plain .rset [.flushed] w
+      | .help => plain .help [.help] w
+      | .noop => plain .noop [.noop] w
+      | .vrfy => plain .vrfy [.vrfy] w
+      | .unimpl => plain .unimpl [.unimpl] w
+      | .quit =>
+        match takeReply pol [.quit] o with
+        | none => { w with r := w.r.ora c "garbled-reply" s!"the reply to QUIT is {hex (o.take 80)}" }
+        | some (_, o') => if o'.isEmpty then w else { w with r := w.r.ora c "garbled-reply" s!"output after the reply to QUIT: {hex (o'.take 80)}" }
+      | .mail => plain (.mail arg) [.mailok, .syntax] w
+      | .rcpt =>
+        match takeReply pol [.rcptok, .syntax, .bmf, .nogateway, .wantmail] o with
+        | none => { w with r := w.r.ora c "garbled-reply" s!"the reply to command line {hex l} is none of the replies of RCPT: {hex (o.take 80)}" }
+        | some (x, o') =>
+          let want := Nq.SmtpPolicyDoc.gateDocB pol w.pre arg
+          let r1 := if (x == .rcptok) != want then
+              w.r.ora c "rcpt-policy" s!"RCPT {hex arg} answered {hex (render pol x)}; by the documented rules (open transaction, badmailfrom, RELAYCLIENT or rcpthosts, 900-byte limit) accepted={want}"
+            else w.r
+          sessWalk c pol fuel rest o' { w with pre := w.pre ++ [(.rcpt arg, { replies := [x] })], r := r1 }
+      | .data =>
+        match takeReply pol [.wantmail, .wantrcpt, .go, .qqt] o with
+        | none => { w with r := w.r.ora c "garbled-reply" s!"the reply to DATA is {hex (o.take 80)}" }
+        | some (.go, o') => Id.run do
+          let mut r := w.r
+          let e := endAt c.ends w.k
+          let rec? := c.recs[w.k]?
+          let txn := Nq.SmtpPolicy.openTxnB pol w.pre
+          let (snd, rcs) := match txn with
+            | some (s, mid) => (s, mid.filterMap (Nq.SmtpPolicy.acceptedRcpt pol))
+            | none => ([], [])
+          if txn.isNone || rcs.isEmpty then
+            r := r.ora c "data-without-transaction" s!"DATA number {w.k} was answered 354 although no transaction with an accepted recipient is open"
+          match Nq.SmtpIn.rfcDecode rest with
+          | .accepted body rest' =>
+            let fin := (o'.takeWhile (· != 10))
+            let finalLine := if fin.getLast? == some 13 then fin.dropLast else fin
+            let o'' := (o'.dropWhile (· != 10)).drop 1
+            let acked := isAckLine c.now finalLine
+            let wire := rest.take (rest.length - rest'.length)
+            let hops := Nq.Spec.C07.hopsSpec wire
+            let tooBig := c.databytes ≠ 0 && body.length > c.databytes
+            let shown := match w.helo with
+              | some h => if lower (cstr h) == lower (cstr c.peer.remotehost) then none else some h
+              | none => none
+            let content := receivedSpec "SMTP" c.peer.remotehost c.peer.remoteip (lhostOf c.peer) c.peer.info shown c.now ++ body
+            if acked then
+              match rec? with
+              | none => r := r.ora c "ack-without-queue" s!"transaction {w.k} acknowledged but there was no queue run number {w.k}"
+              | some (f0, f1) =>
+                r := recvCheck r c f0
+                if !(txn.isSome && Queued f0 f1 e.exit e.crashed content snd rcs) then
+                  r := r.ora c "ack-not-exact" s!"transaction {w.k} acknowledged but queue run {w.k} got fd0={hex f0} fd1={hex f1} exit={e.exit} crashed={e.crashed} expected-content={hex content} expected-sender={hex snd} expected-rcpts={rcs.map hex}"
+              if tooBig then r := r.ora c "ack-oversize" s!"transaction {w.k}: {body.length} bytes acknowledged with databytes={c.databytes}"
+              if hops ≥ 100 then r := r.ora c "ack-hops" s!"transaction {w.k} acknowledged with {hops} hops"
+            else
+              match rec? with
+              | some (_, f1) =>
+                if !NotQueued f1 e.exit e.crashed then r := r.ora c "queued-without-ack" s!"transaction {w.k} was queued (complete envelope, exit 0) but not acknowledged: {hex finalLine}"
+              | none => pure ()
+              let code := finalLine.take 4
+              let want : List Bytes :=
+                if hops ≥ 100 then [str "554 "]
+                else if tooBig then [str "552 "]
+                else match qqClass e.exit e.crashed e.text with
+                  | .ok => if c.wleft.isSome then [str "451 "] else []
+                  | .perm => [str "554 "]
+                  | .temp => [str "451 "]
+                  | .any => [str "554 ", str "451 "]
+              if !want.contains code then r := r.ora c "class" s!"transaction {w.k}: hops={hops} size={body.length}/{c.databytes} exit={e.exit} crashed={e.crashed}: reply {hex finalLine} has the wrong class"
+            return sessWalk c pol fuel rest' o''
+              { w with pre := w.pre ++ [(.data {}, { replies := [.go, if acked then .accepted else .qqfail []] })], k := w.k + 1,
+                       acks := w.acks + (if acked then 1 else 0), r := r }
+          | dres =>
+            -- bare LF or no terminator before the client went away: this transaction is neither acknowledged nor queued
+            match rec? with
+            | some (_, f1) =>
+              if envComplete f1 then r := r.ora c "queued-unterminated" s!"complete envelope in queue run {w.k} although its DATA was never terminated properly"
+            | none => pure ()
+            if dres == .stray && o'.take 4 != str "451 " then r := r.ora c "class" s!"bare LF must be refused with 451, got {hex (o'.take 80)}"
+            return { w with k := w.k + 1, r := r }
+        | some (x, o') => sessWalk c pol fuel rest o' { w with pre := w.pre ++ [(.data {}, { replies := [x] })] }
+
+def tCheck (c : Case) (r0 : Rep) : Rep := Id.run do
+  let mut r := r0
+  let some raw := unhex (c.pay.getD 0 "-") | return r.dis c "unparsable-input"
+  if !c.queueView then r := sessionDis c r raw
+  let pol := smtpPol c
+  let ban := Nq.SmtpSession.banner pol
+  if c.out.take ban.length != ban then return r.ora c "garbled-reply" s!"no greeting: {hex (c.out.take 80)}"
+  let w := sessWalk c pol (raw.length + 1) raw (c.out.drop ban.length) { r := r }
+  r := w.r
+  let ackLines := (splitCRLF [] c.out).filter (isAckLine c.now)
+  if ackLines.length != w.acks then
+    r := r.ora c "stray-ack" s!"{ackLines.length} acknowledgement lines in the output, {w.acks} of them are replies to the end of an accepted DATA"
+  if c.recs.length > w.k then
+    for (_, f1) in c.recs.drop w.k do
+      if envComplete f1 then r := r.ora c "queue-run-unaccounted" "a queue run with a complete envelope that no DATA answered 354 accounts for"
   return r
 
 /-! ### datetime_tai / date822fmt on their own (harness/c07_date.c)
@@ -526,6 +684,7 @@ def handle (st : Stats) (line : String) : IO Stats := do
       | "M" => qmtpCheck c r
       | "Q" => qmqpCheck c r
       | "S" => smtpCheck c r
+      | "T" => tCheck c r
       | _ => r.dis c "unknown-protocol"
     let mut r := check c { st := st }
     if c.proto != c.proto.toUpper then
